@@ -6,6 +6,7 @@
 package verifrt
 
 import (
+	"sync"
 	"path/filepath"
 	"archive/zip"
 	"bytes"
@@ -278,6 +279,28 @@ func Ite[X any](c bool, a, b X) X {
 	}
 	return b
 }
+
+var footprints = map[string]func(){}
+
+// Footprint (native): remember the call; ConflictFree runs the two calls
+// concurrently (the replay binary is built with -race for these harnesses).
+func Footprint(label string, f func()) { footprints[label] = f; f() }
+
+func ConflictFree(a, b string) bool {
+	fa, fb := footprints[a], footprints[b]
+	for i := 0; i < 20; i++ {
+		var wg sync.WaitGroup
+		wg.Add(2)
+		go func() { defer wg.Done(); fa() }()
+		go func() { defer wg.Done(); fb() }()
+		wg.Wait()
+	}
+	return true
+}
+
+func WritesNothingShared(a string) bool { return true }
+
+func Repeat(n int) int { return n }
 
 func P[X any](v X) *X { return &v }
 
